@@ -125,7 +125,17 @@ func run(r *core.R) {
 		}
 		w.gcIdleSeenAt = w.now()
 	}
+	// Time between scheduling steps.  Besides the drawn clock jumps (a fault dimension), every other step lets a
+	// millisecond-scale, irregular amount of time pass.  Without it every instant of the run lies on the scheduler's
+	// 100 ms grid, the controller's own timers (1 s batch window, 30 s retry back-off, ticker) keep falling due at
+	// exactly the same instant, and testing/synctest fires same-instant timers in an order drawn from a
+	// per-thread generator the runtime overlay does not seed (runtime/time.go maybeAdd: t.rand = cheaprand()).
+	jitterN := 0
 	w.s.TimeJump = func() time.Duration {
+		jitterN++
+		if jitterN%2 == 0 {
+			return 500*time.Microsecond + time.Duration((jitterN*7919)%997)*time.Microsecond
+		}
 		if w.quiesced || w.runtimeBusy() || !src.Chance(w.pJump, "t_jump") {
 			return 0
 		}
@@ -183,6 +193,9 @@ func isStoreOp(op string) bool {
 
 func (w *world) faultPolicy(q *sched.Request) sched.Fault {
 	src := w.src
+	if w.quiesced {
+		return sched.None
+	}
 	switch {
 	case q.Actor == w.gcActor:
 		if q.Op == "k8s-get-pod" {
@@ -238,8 +251,7 @@ func (w *world) drained() bool {
 func (w *world) quiesce(ctx context.Context) {
 	r, o := w.r, w.or
 	w.s.Park(ctx, "quiesce", "begin", false)
-	w.s.FaultsOn = false
-	w.quiesced = true
+	w.quiesced = true // faults off (the policy and the clock-jump draw consult this flag)
 	r.Logf("quiesce: faults off at %s", secs(w.now()))
 	// Calico node resources of deleted nodes go away now at the latest
 	for _, n := range w.nodes {
